@@ -30,6 +30,9 @@ def slices(tier):
         'embed-pairs-S2': ('embed2', first(space.universe(2, 'ab')), space.universe(2, 'abx')),
         'mask-S2': ('mask', space.universe(2, 'ab'), None),
         'forwards-S1xS1': ('forwards', u1f, space.universe(1, 'ax')),
+        'embed-triples-S1': ('embed3q', u1f, (space.universe(1, 'ab'), u1f)),
+        'annotated-S1xS1': ('annotated', u1f + [x for x in space.universe(1, 'abc') if x not in u1f],
+                            space.universe(1, 'ab')),
     }
     if tier == 'thorough':
         out['merge-triples-S1-bothstars'] = ('merge3', u1f, u1)
@@ -39,6 +42,7 @@ def slices(tier):
         out['merge-pairs-S3'] = ('merge2', first(u3), u3)
         out['embed-pairs-S3'] = ('embed2', first(u3), space.universe(3, 'abx'))
         out['embed-triples-S1'] = ('embed3', space.universe(1, 'abc'), space.universe(1, 'abc', BOTH_VA, BOTH_VK))
+        out['annotated-S2xS2'] = ('annotated', first(u2), space.universe(2, 'ab'))
         out['mask-S3'] = ('mask', u3, None)
         out['forwards-S2xS2'] = ('forwards', first(space.universe(2, 'ab')), space.universe(2, 'abx'))
     _SL[tier] = out
@@ -77,16 +81,29 @@ def run_op(fn, args, kwargs):
     return status, res, bool(_WARNED)
 
 
-def eval_case(opname, fn, shapes, args, kwargs, st, need_incompat):
+_ANN = {}
+
+
+def annotated_sig(shape, txt):
+    key = (shape, txt)
+    if key not in _ANN:
+        _ANN[key] = S.signature(space.make_func(shape, annotations=dict((p[0], txt) for p in shape), cache=False))
+    return _ANN[key]
+
+
+def eval_case(opname, fn, shapes, args, kwargs, st, need_incompat, ann=None):
     """One algebra application, upgraded and downgraded."""
-    sigs = [alg.sig_of(s) for s in shapes]
+    sigs = [alg.sig_of(s) for s in shapes] if ann is None else [annotated_sig(s, t) for s, t in zip(shapes, ann)]
     status, res, _ = run_op(fn, sigs + list(args), kwargs)
     st.inc('transitions')
     case = {'op': opname, 'sigs': [space.to_json(s) for s in shapes], 'args': list(args), 'kwargs': kwargs}
+    if ann is not None:
+        case['annotations'] = list(ann)
     out = []
 
     def viol(kind, **d):
         detail = {'op': opname, 'sigs': [show(s) for s in shapes], 'args': list(args), 'kwargs': kwargs,
+                  'annotations': 'every parameter of operand i annotated %s' % (list(ann),) if ann else 'none',
                   'outcome': alg.sig_str(res) if status == 'ok' else '%s: %s' % (type(res).__name__, res)}
         detail.update(d)
         st.violation(kind, case, detail, {'op': opname})
@@ -138,25 +155,45 @@ def cases_for(kind, a, other, tier):
     """Yield (opname, fn, shapes, args, kwargs, need_incompat) for first operand ``a``."""
     if kind == 'merge2':
         for b in other:
-            yield 'merge', S.merge, (a, b), (), {}, True
+            yield 'merge', S.merge, (a, b), (), {}, True, None
     elif kind == 'merge3':
         for b, c in itertools.product(other, repeat=2):
-            yield 'merge', S.merge, (a, b, c), (), {}, True
+            yield 'merge', S.merge, (a, b, c), (), {}, True, None
     elif kind == 'embed2':
         for b in other:
             for uva in (True, False):
                 for uvk in (True, False):
-                    yield 'embed', S.embed, (a, b), (), {'use_varargs': uva, 'use_varkwargs': uvk}, True
+                    yield 'embed', S.embed, (a, b), (), {'use_varargs': uva, 'use_varkwargs': uvk}, True, None
+    elif kind == 'embed3q':
+        for b, c in itertools.product(*other):
+            for uva in (True, False):
+                for uvk in (True, False):
+                    yield 'embed', S.embed, (a, b, c), (), {'use_varargs': uva, 'use_varkwargs': uvk}, True, None
     elif kind == 'embed3':
         for b, c in itertools.product(other, repeat=2):
-            yield 'embed', S.embed, (a, b, c), (), {}, True
+            for uva in (True, False):
+                for uvk in (True, False):
+                    yield 'embed', S.embed, (a, b, c), (), {'use_varargs': uva, 'use_varkwargs': uvk}, True, None
+    elif kind == 'annotated':
+        # every parameter annotated; the two operands agree ('int', 'int') or disagree ('int', 'str')
+        for b in other:
+            for ann in (('int', 'int'), ('int', 'str')):
+                yield 'merge', S.merge, (a, b), (), {}, True, ann
+                for uva in (True, False):
+                    for uvk in (True, False):
+                        yield 'embed', S.embed, (a, b), (), {'use_varargs': uva, 'use_varkwargs': uvk}, True, ann
+                for n in range(2):
+                    for fb in range(0, 32, 4):
+                        flags = dict((f, bool(fb >> i & 1)) for i, f in enumerate(FWD_FLAGS))
+                        yield 'forwards', S.forwards, (a, b), (n,), flags, False, ann
+            yield 'mask', S.mask, (a,), (1,), {}, False, ('int',)
     elif kind == 'mask':
         P = len(space.positionals(a))
         for n in range(len(a) + 3):
             for names in names_menu(a):
                 for fb in range(16):
                     flags = dict((f, True) for i, f in enumerate(MASK_FLAGS) if fb >> i & 1)
-                    yield 'mask', S.mask, (a,), (n,) + names, flags, False
+                    yield 'mask', S.mask, (a,), (n,) + names, flags, False, None
     elif kind == 'forwards':
         for b in other:
             menu = [()] + [(p[0],) for p in b] + [('zz',)]
@@ -164,7 +201,7 @@ def cases_for(kind, a, other, tier):
                 for names in menu:
                     for fb in range(32):
                         flags = dict((f, bool(fb >> i & 1)) for i, f in enumerate(FWD_FLAGS))
-                        yield 'forwards', S.forwards, (a, b), (n,) + names, flags, False
+                        yield 'forwards', S.forwards, (a, b), (n,) + names, flags, False, None
 
 
 def shard(tier, sh):
@@ -173,9 +210,9 @@ def shard(tier, sh):
     st = runner.Stats()
     arm_warnings()
     for a in first[i0:i1]:
-        for opname, fn, shapes, args, kwargs, need in cases_for(kind, a, other, tier):
+        for opname, fn, shapes, args, kwargs, need, ann in cases_for(kind, a, other, tier):
             st.inc('states')
-            eval_case(opname, fn, shapes, args, kwargs, st, need)
+            eval_case(opname, fn, shapes, args, kwargs, st, need, ann)
         if len(a) > 1:
             st.sample({'slice': name, 'first_operand': show(a)}, 1)
     return st
@@ -200,7 +237,7 @@ def run(tier, seed):
                 'operation and re-validates its output through inspect.Signature (that is what '
                 'traces_validated_against_impl counts); distinct_nontrivial = distinct (operation, result shape) + '
                 'distinct (operation, exception class)',
-        'slices': dict((k, {'kind': v[0], 'first_operands': len(v[1]), 'other_operands': len(v[2]) if v[2] else None})
+        'slices': dict((k, {'kind': v[0], 'first_operands': len(v[1]), 'other_operands': ([len(x) for x in v[2]] if isinstance(v[2], tuple) else len(v[2])) if v[2] else None})
                        for k, v in sl.items()),
         'bound': 'k<=2 per operand (merge/embed pairs, mask), k<=1 merge triples, forwards k<=1 x k<=1 (quick); k<=3, both star-name pairs, forwards k<=2 (thorough)',
     }
@@ -222,4 +259,4 @@ def replay(art):
     st = runner.Stats()
     arm_warnings()
     return eval_case(case['op'], fn, shapes, tuple(case['args']), case['kwargs'], st,
-                     case['op'] in ('merge', 'embed'))
+                     case['op'] in ('merge', 'embed'), tuple(case['annotations']) if case.get('annotations') else None)
